@@ -3178,7 +3178,7 @@ func (s *Store) createSnapshotFingerprint() error {
 	// finalised in the store before its Finalizer runs, and a restore installs
 	// the newest snapshot.
 	li, tm, err := s.snapshotStore.LatestIndexTerm()
-	if err != nil {
+	if err != nil && !errors.Is(err, snapshot.ErrSnapshotNotFound) {
 		return fmt.Errorf("failed to get latest snapshot index for snapshot finalizer: %s", err)
 	}
 
